@@ -2,6 +2,7 @@ pub mod bytes_in;
 pub mod emplace;
 pub mod framing;
 pub mod hist;
+pub mod io;
 
 use crate::engine::{Ctx, Report};
 
@@ -9,6 +10,7 @@ pub fn dispatch(ctx: &Ctx, rep: &mut Report) {
     match ctx.prop.as_str() {
         "C01" | "C02" => bytes_in::run(ctx, rep),
         "C06" | "C19" => framing::run(ctx, rep),
+        "C07" | "C08" | "C09" | "C10" => io::run(ctx, rep),
         "C05" | "C11" | "C12" | "C13" | "C14" | "C18" => hist::run(ctx, rep),
         "C03" | "C04" | "C15" | "C17" | "C20" => emplace::run(ctx, rep),
         other => rep.harness_error(format!("no engine for {}", other)),
